@@ -8,7 +8,7 @@ import proto, gen
 THEOREMS = ['C03_crossings', 'C03_crossing_rise', 'C03_crossing_decay', 'C03_value', 'C03_crossing_exists_rise', 'C03_crossing_exists_decay',
             'C03_single', 'C03_median', 'C03_centre', 'C03_within_segment', 'C03_count', 'C03_within', 'C03_counts_order']
 RULE = ("(a) EXHAUSTIVE: every flank segment over the values {-1,0,1,2} of length 2..L in both directions (multiple crossings, ties with the half height, "
-        "inverted, all-zero and flat-ended flanks); (b) EXHAUSTIVE: every strictly alternating peak/trough index sequence on every signal over {-1,0,1} "
+        "inverted, all-zero and flat-ended flanks), one in four also as an int8 / int16 / int32 array scaled to the limits of its type; (b) EXHAUSTIVE: every strictly alternating peak/trough index sequence on every signal over {-1,0,1} "
         "of length <= M (count / bias / order logic); (c) cyclepoints from find_extrema on generated signals of all families (first_extrema peak/trough/None, "
         "several boundaries); distinct = distinct (signal, peaks, troughs); non-trivial = at least one flank whose answer is not its first sample")
 ASSUMPTIONS = ["half heights (a+b)/2 are exact on the integer grids of (a) and (b); on float signals a disagreement is recorded as a float tie only when a "
@@ -19,12 +19,14 @@ def regen_slots():
     import slots
     return slots.regenerate()
 
-def _impl(sig, peaks, troughs):
+INT_MUL = {'int8': 50, 'int16': 12000, 'int32': 900000000}
+
+def _impl(sig, peaks, troughs, dt=None):
     from bycycle.cyclepoints import find_zerox
     try:
         with warnings.catch_warnings():
             warnings.simplefilter('ignore')
-            r, d = find_zerox(np.asarray(sig, dtype=float), np.asarray(peaks, dtype=int), np.asarray(troughs, dtype=int))
+            r, d = find_zerox(sig if dt else np.asarray(sig, dtype=float), np.asarray(peaks, dtype=int), np.asarray(troughs, dtype=int))
         return ['ok', [[str(int(x)) for x in r], [str(int(x)) for x in d]]]
     except Exception as e:
         return ['err', type(e).__name__]
@@ -49,7 +51,9 @@ def corpus(ctx):
             dict(kind='seq', sig=[0, 0, 0, 0], peaks=[3], troughs=[0]),
             dict(kind='seq', sig=[2, 1, 1, 1, 2], peaks=[4], troughs=[0]),
             dict(kind='seq', sig=[0, 2, 0, 2, 0, 2, 1], peaks=[5], troughs=[0]),
-            dict(kind='seq', sig=[1, 0, 1], peaks=[], troughs=[1])]
+            dict(kind='seq', sig=[1, 0, 1], peaks=[], troughs=[1]),
+            # pre-fix F (052c5d2): the flank midpoint (a + b) / 2 wrapped in the signal's own integer type
+            dict(kind='seq', sig=[1, 1, 2, 2, 2], peaks=[4], troughs=[0], dt='int16')]
 
 def generate(ctx):
     cases = []
@@ -57,10 +61,15 @@ def generate(ctx):
     M = ctx.scale(6, 7)
     ctx.notes['exhaustive'] = True
     ctx.notes['exhaustive_scope'] = 'flank segments over {-1,0,1,2} of length 2..%d, both directions; alternating sequences on all signals over {-1,0,1} of length 2..%d' % (L, M)
+    nseg = 0
     for n in range(2, L + 1):
         for seg in itertools.product((-1, 0, 1, 2), repeat=n):
             cases.append(dict(kind='seq', sig=list(seg), peaks=[n - 1], troughs=[0]))     # rise
             cases.append(dict(kind='seq', sig=list(seg), peaks=[0], troughs=[n - 1]))     # decay
+            nseg += 1
+            if nseg % 4 == 0:      # the same flank as an integer-typed recording near the limits of its type
+                up = nseg % 8 == 0
+                cases.append(dict(kind='seq', sig=list(seg), peaks=[n - 1] if up else [0], troughs=[0] if up else [n - 1], dt=['int8', 'int16', 'int32'][(nseg // 4) % 3]))
     for n in range(2, M + 1):
         seqs = []
         for k in range(2, n + 1):
@@ -93,15 +102,17 @@ def evaluate(ctx, cases):
     reqs, sigs = [], []
     for c in cases:
         sig = proto.hex2arr(c['sig']) if c['kind'] == 'signal' else np.array(c['sig'], dtype=float)
+        if c.get('dt'):
+            sig = (np.array(c['sig']) * INT_MUL[c['dt']]).astype(c['dt'])
         sigs.append(sig)
-        args = '%s %s %s' % (proto.enc_list(sig), proto.enc_ints(c['peaks']), proto.enc_ints(c['troughs']))
+        args = '%s %s %s' % (proto.enc_list(sig.astype(float)), proto.enc_ints(c['peaks']), proto.enc_ints(c['troughs']))
         reqs.append('zerox.model ' + args)
         reqs.append('zerox.spec ' + args)
     ans = proto.run_driver(reqs)
     out = []
     for i, c in enumerate(cases):
         model, spec = ans[2 * i], ans[2 * i + 1]
-        impl = _impl(sigs[i], c['peaks'], c['troughs'])
+        impl = _impl(sigs[i], c['peaks'], c['troughs'], c.get('dt'))
         corr_ok = impl == model
         judge_ok = True if spec == 'invalid-seq' else impl == spec
         tie = False
@@ -111,7 +122,7 @@ def evaluate(ctx, cases):
                 judge_ok = True
         nt = impl[0] == 'ok' and any(int(m) not in set(c['peaks']) | set(c['troughs']) for m in impl[1][0] + impl[1][1])
         ctx.hist('kind', c['kind'] + ('' if spec != 'invalid-seq' else ':invalid-seq'))
-        key = (tuple(c['sig']) if c['kind'] == 'seq' else hash(tuple(c['sig'])), tuple(c['peaks']), tuple(c['troughs']))
+        key = (tuple(c['sig']) if c['kind'] == 'seq' else hash(tuple(c['sig'])), tuple(c['peaks']), tuple(c['troughs']), c.get('dt'))
         out.append(Result(c, judge_ok=judge_ok, corr_ok=corr_ok, sig=hash(key), nontrivial=nt, float_tie=tie,
                           info=dict(impl=impl, model=model, spec=spec)))
     return out
